@@ -845,3 +845,171 @@ theorem C17_halted_service_never_restores_run (st : State) (ops : List Op)
 example : ({ op := .stopped } : Server).Halted := Or.inr (Or.inr ⟨rfl, by decide⟩)
 
 end Primaite.Database
+
+namespace Primaite.Database
+
+/-! ## 6. What happens to the stored backup when it is deleted, or when the service is re-installed (round 4)
+
+`C17_restore_roundtrip_run` excludes two operations by hypothesis; this is what they do. -/
+
+/-- no copy stored for the current instance ⇒ a restore cannot succeed (whatever else is true of the state) -/
+theorem C17_restore_without_backup (st : State) (d k : Bool) (h : st.bk.stored = none) :
+    (step st (.restore d k)).2.res ≠ some true ∧ (step st (.restore d k)).1.srv.file = st.srv.file ∧
+    (step st (.restore d k)).1.srv.health = st.srv.health := by
+  simp only [step]
+  split
+  · exact ⟨by simp, rfl, rfl⟩
+  · dsimp only
+    have hf : (restoreBackup st.srv st.bk st.ftpReq (st.ftpResp && d) k).2 = false := by
+      cases hr : (restoreBackup st.srv st.bk st.ftpReq (st.ftpResp && d) k).2 with
+      | false => rfl
+      | true =>
+        obtain ⟨x, hx, _⟩ := C17_restore_result _ _ _ _ _ hr
+        rw [h] at hx; cases hx
+    have hc := (C17_failed_restore_changes_nothing _ _ _ _ _ hf).1
+    refine ⟨by rw [hf]; simp, ?_, ?_⟩ <;> rw [hc]
+
+/-- **Deleting the copy on the backup host** removes exactly the current instance's copy (orphans of earlier instances and
+everything on the database host are untouched): from then on no restore succeeds (`C17_restore_without_backup`,
+`C17_no_backup_stays_none_run`) until a NEW backup is taken - which stores the health the file has THEN
+(`C17_backup_stores`), so a backup taken after the damage restores to damaged data. -/
+theorem C17_backup_deleted (st : State) :
+    (step st .bkDelete).1.bk.stored = none ∧ (step st .bkDelete).1.bk.orphans = st.bk.orphans ∧
+    (step st .bkDelete).1.srv = st.srv ∧ ((step st .bkDelete).2.res = some true ↔ st.bk.stored.isSome) := by
+  simp only [step]
+  cases h : st.bk.stored <;> simp [h]
+
+/-- **Re-installing the service orphans its backup.**  A re-install that goes through leaves the old instance's copy on the
+backup host where it was - under the OLD uuid, as an orphan that nothing reads any more - and the new instance has no
+backup: a restore fails until the new instance has taken its own. A refused or raising re-install changes nothing. -/
+theorem C17_reinstall_orphans_backup (st : State) (cfg : Option (Option Nat × Bool)) :
+    ((step st (.svcInstall cfg)).2.res = some true →
+      (step st (.svcInstall cfg)).1.bk.stored = none ∧
+      (step st (.svcInstall cfg)).1.bk.orphans = st.bk.orphans ++ st.bk.stored.toList ∧
+      ∀ d k, (step (step st (.svcInstall cfg)).1 (.restore d k)).2.res ≠ some true) ∧
+    ((step st (.svcInstall cfg)).2.res ≠ some true → (step st (.svcInstall cfg)).1 = st) := by
+  have key : ∀ st' : State, st'.bk.stored = none → ∀ d k, (step st' (.restore d k)).2.res ≠ some true :=
+    fun st' h d k => (C17_restore_without_backup st' d k h).1
+  constructor
+  · intro h
+    have hst : (step st (.svcInstall cfg)).1.bk.stored = none ∧
+        (step st (.svcInstall cfg)).1.bk.orphans = st.bk.orphans ++ st.bk.stored.toList := by
+      simp only [step] at h ⊢
+      split at h <;> simp_all
+    exact ⟨hst.1, hst.2, key _ hst.1⟩
+  · intro h
+    simp only [step] at h ⊢
+    split at h <;> simp_all
+
+/-- orphans are never read: the outcome of backup and restore does not depend on them -/
+theorem C17_orphans_irrelevant (s : Server) (b : Backup) (o : List FHealth) (pq pr k big : Bool) :
+    restoreBackup s { b with orphans := o } pq pr k = restoreBackup s b pq pr k ∧
+    (backupDatabase s { b with orphans := o } pq big).2.2 = (backupDatabase s b pq big).2.2 ∧
+    (backupDatabase s { b with orphans := o } pq big).1 = (backupDatabase s b pq big).1 := by
+  refine ⟨?_, ?_, ?_⟩
+  · rw [restoreBackup_closed, restoreBackup_closed]; rfl
+  · have e : Backup.serves { b with orphans := o } = b.serves := rfl
+    unfold backupDatabase ftpSendFile
+    simp only [e]
+    cases hc : s.canAct <;> cases hbc : s.backupConfigured <;> cases hft : s.ftpc <;> cases hf : s.file <;> simp
+    cases big <;> cases hs : b.stored <;> cases hq : s.ftpConn <;> cases ha : s.ftpcAct <;> cases pq <;> cases hbs : b.serves <;> simp
+  · have e : Backup.serves { b with orphans := o } = b.serves := rfl
+    unfold backupDatabase ftpSendFile
+    simp only [e]
+    cases hc : s.canAct <;> cases hbc : s.backupConfigured <;> cases hft : s.ftpc <;> cases hf : s.file <;> simp
+    cases big <;> cases hs : b.stored <;> cases hq : s.ftpConn <;> cases ha : s.ftpcAct <;> cases pq <;> cases hbs : b.serves <;> simp
+
+/-- the operations that can put a copy on the backup host: an explicit backup, a tick (the automatic backup at timestep 1) -/
+def Op.mayStore : Op → Bool
+  | .backup _ => true
+  | .tick _ _ _ => true
+  | _ => false
+
+theorem step_keeps_none (st : State) (op : Op) (h : st.bk.stored = none) (hop : op.mayStore = false) :
+    (step st op).1.bk.stored = none := by
+  cases op with
+  | backup big => simp [Op.mayStore] at hop
+  | tick big d k => simp [Op.mayStore] at hop
+  | bkDelete => simp only [step]; rw [h]; exact h
+  | svcInstall cfg => simp only [step]; split <;> first | rfl | exact h
+  | connect i => show (st.getNewConnection i).1.bk.stored = _; rw [getNewConnection_bk]; exact h
+  | rawQuery i cid q => simp only [step]; split <;> simp [rawQuery_bk, h]
+  | rawDisconnect i cid => simp only [step]; split <;> simp [send_bk, h]
+  | rawJunk i k => simp only [step]; split <;> simp [send_bk, h]
+  | hQuery hd q => simp only [step]; split <;> simp [handleQuery_bk, h]
+  | hDisconnect hd => simp only [step]; split <;> simp [handleDisconnect_bk, h]
+  | nConnect i => simp only [step]; split <;> simp [nativeConnect_bk, h]
+  | nQuery i q => simp only [step]; split <;> simp [nativeQuery_bk, h]
+  | nDisconnect i => simp only [step]; split <;> simp [nativeDisconnect_bk, h]
+  | execute i =>
+    simp only [step]; split
+    · exact h
+    · split
+      · exact h
+      · simp [execute_bk, h]
+  | uninstall i => show (st.uninstall i).1.bk.stored = _; rw [uninstall_bk]; exact h
+  | install i =>
+    show (st.install i).bk.stored = _
+    unfold State.install; split
+    · exact h
+    · split <;> exact h
+  | appRun i => simp only [step]; (repeat' split) <;> exact h
+  | appClose i => simp only [step]; (repeat' split) <;> exact h
+  | clientPw i pw => simp only [step]; (repeat' split) <;> exact h
+  | ransom i q => show (st.ransom i q).1.bk.stored = _; rw [ransom_bk]; exact h
+  | svc r => exact h
+  | setPw pw => exact h
+  | restore d k => simp only [step]; split <;> exact h
+  | folderDelete => exact h
+  | admin a => exact h
+  | dl a => exact h
+  | co k => simp only [step]; (repeat' split) <;> exact h
+  | dm i q scan atk via =>
+    simp only [step]; split
+    · exact h
+    · split
+      · exact h
+      · split
+        · exact h
+        · simp [dmAttack_bk, h]
+  | ransomReq i q =>
+    simp only [step]; split
+    · exact h
+    · split
+      · exact h
+      · simp [ransom_bk, h]
+  | fileDelete => exact h
+  | fileCorrupt => exact h
+  | fileRepair => exact h
+  | power who on =>
+    simp only [step]
+    (repeat' split) <;> first | exact h | simp [h]
+  | ftps b => simp only [step]; (repeat' split) <;> exact h
+  | block w on => simp only [step]; (repeat' split) <;> exact h
+
+/-- **No backup, no restore - along every run.**  Once the backup host holds no copy for the current instance (it was
+deleted there, the service was re-installed, or none was ever taken), then along EVERY sequence of operations that contains
+neither an explicit backup nor a tick, it holds none, and every restore fails leaving the file as it is. -/
+theorem C17_no_backup_stays_none_run (st : State) (ops : List Op) (h : st.bk.stored = none)
+    (hops : ∀ op ∈ ops, op.mayStore = false) :
+    (run st ops).bk.stored = none ∧
+    ∀ d k, (step (run st ops) (.restore d k)).2.res ≠ some true ∧
+      (step (run st ops) (.restore d k)).1.srv.file = (run st ops).srv.file := by
+  have hn : (run st ops).bk.stored = none := by
+    induction ops generalizing st with
+    | nil => exact h
+    | cons o os ih =>
+      unfold run
+      exact ih _ (step_keeps_none st o h (hops o List.mem_cons_self)) (fun op hm => hops op (List.mem_cons_of_mem _ hm))
+  exact ⟨hn, fun d k => ⟨(C17_restore_without_backup _ d k hn).1, (C17_restore_without_backup _ d k hn).2.1⟩⟩
+
+/-- non-vacuity: backup GOOD, DELETE, the copy deleted on the backup host: restore fails; a new backup stores the COMPROMISED
+data, and the restore that then succeeds brings back compromised data -/
+example :
+    let st : State := { clients := [{}] }
+    let ops : List Op := [.backup true, .connect 0, .hQuery 0 .delete, .bkDelete]
+    (run st ops).bk.stored = none ∧ (step (run st ops) (.restore true true)).2.res = some false ∧
+    (run st (ops ++ [.backup true])).bk.stored = some .compromised ∧
+    (run st (ops ++ [.backup true, .restore true true])).srv.file = some .compromised := by decide
+
+end Primaite.Database
